@@ -26,7 +26,10 @@ def gen_cases(seed, tier, n):
     for i in range(n):
         # every fourth case has an autograd thread beside the main thread (operators occur on both; the main thread may itself hold
         # an autograd:: operator): the backward attachment decides under which operator a kernel is counted
-        c = tracegen.gen_case(seed, i, tracegen.PROFILES["kseq_bwd" if i % 4 == 1 else "kseq"])
+        if i % 10 == 9:
+            c = tracegen.gen_chain_case(seed, i)        # every duration below 128 (int8 column), a pattern's summed durations far above
+        else:
+            c = tracegen.gen_case(seed, i, tracegen.PROFILES["kseq_bwd" if i % 4 == 1 else "kseq"])
         rng = random.Random(seed * 7919 + i)
         c["params"] = {"pseed": rng.randint(0, 10 ** 9)}
         if i % 8 == 1:
